@@ -14,7 +14,7 @@
    (memmap used, or the proxy is not rank-0; every image proxy has rank >= 1: see
    C03_mmap_rank0_refuted).  Zero-length axes are covered (fix 599d4b17). *)
 From Coq Require Import ZArith List Bool Lia.
-From NV Require Import Base.PySlice C06.Model C06.Lemmas C03.Model C03.Lemmas C03.ModelS C03.LemmasS.
+From NV Require Import Base.PySlice C06.Model C06.Lemmas C03.Model C03.Lemmas C03.ModelS C03.LemmasS C03.LemmasP.
 Import ListNotations.
 Open Scope Z_scope.
 
@@ -66,6 +66,71 @@ Theorem C03_scaled_elem_dtype : forall d slope inter req v dt x,
   scaled_elem d slope inter req v = Some (dt, x) -> scaled_dtype d slope inter req = Some dt.
 Proof. exact scaled_elem_dtype. Qed.
 Print Assumptions C03_scaled_elem_dtype.
+
+(* ---- the same at the bit level for the proxies with PER-SLAB factors: every output element of
+   proxy[ix] is the format's concrete IEEE element formula (ModelS.v) applied to ONE raw element
+   with the factors of that element's OWN sub-brick / REC record / frame / image-min-max slab —
+   for every valid index, whether it keeps, strides, reverses or drops (integer index) the scaled
+   axis.  offs shape c 1 lists the source offsets of the output elements in order. *)
+Theorem C03_afni_bitexact :
+  forall (decode : list Z -> sval) d noscale dF rd file mm shape w off fl ix c,
+  unscaled_hyps rd file mm shape w off ix c ->
+  afni_getitem rd (afni_sc decode d) noscale dF mm shape w off (Some fl) ix
+  = Ok (np_shape shape c,
+        map (fun o => afni_elem d (nth (Z.to_nat (o / prod (removelast shape))) fl dF)
+                                  (decode (nth (Z.to_nat o) (array_elems file shape w off) [])))
+            (offs shape c 1)).
+Proof. exact afni_bitexact. Qed.
+Print Assumptions C03_afni_bitexact.
+
+(* PAR/REC: sorted slab o div (x*y) IS record ind[o div (x*y)] (C03_parrec_raw_is_record) and is
+   scaled with that record's (slope, intercept) *)
+Theorem C03_parrec_bitexact :
+  forall (decode : list Z -> sval) d dF rd file mm shape nrec ind w facs ix c,
+  parrec_hyps rd file mm shape nrec ind w ix c ->
+  parrec_getitem rd (parrec_sc decode d) dF mm shape nrec ind w facs ix
+  = Ok (np_shape shape c,
+        map (fun o => let rec_no := nth (Z.to_nat (o / prod (firstn 2 shape))) ind 0 in
+                      parrec_elem d (fst (nth (Z.to_nat rec_no) facs dF)) (snd (nth (Z.to_nat rec_no) facs dF))
+                                  (decode (nth (Z.to_nat o) (parrec_raw file shape nrec ind w) [])))
+            (offs shape c 1)).
+Proof. exact parrec_bitexact. Qed.
+Print Assumptions C03_parrec_bitexact.
+
+Theorem C03_parrec_raw_is_record :
+  forall rd file mm shape nrec ind w ix c o,
+  parrec_hyps rd file mm shape nrec ind w ix c -> 0 <= o < prod shape ->
+  let m := prod (firstn 2 shape) in
+  nth (Z.to_nat o) (parrec_raw file shape nrec ind w) []
+  = nth (Z.to_nat (m * nth (Z.to_nat (o / m)) ind 0 + o mod m)) (array_elems file (firstn 2 shape ++ [nrec]) w 0) [].
+Proof. exact parrec_raw_nth. Qed.
+Print Assumptions C03_parrec_raw_is_record.
+
+Theorem C03_ecat_bitexact :
+  forall (decode : list Z -> sval) d dF dR rd file mm A n w fmap foffs facs ix c,
+  ecat_hyps rd file mm A n w fmap foffs ->
+  canonical_slicers true ix (A ++ [n]) = Ok c -> ix_valid (A ++ [n]) c ->
+  ecat_getitem rd (ecat_sc decode d) dF dR mm A n w fmap foffs facs ix
+  = Ok (np_shape (A ++ [n]) c,
+        map (fun o => let i := o / prod A in
+                      ecat_elem d (fst (nth (ecat_rec fmap i) facs dF)) (snd (nth (ecat_rec fmap i) facs dF))
+                                (decode (nth (Z.to_nat (o mod prod A)) (array_elems file A w (nth (ecat_rec fmap i) foffs 0)) [])))
+            (offs (A ++ [n]) c 1)).
+Proof. exact ecat_bitexact. Qed.
+Print Assumptions C03_ecat_bitexact.
+
+(* MINC, integer image (C order: offsets over the reversed shape/index) *)
+Theorem C03_minc_bitexact :
+  forall (decode : list Z -> sval) d noscale dmin dmax dF shape nscales elems facs ix c,
+  minc_hyps shape nscales elems facs ix c ->
+  minc_getitem (minc_sc decode d dmin dmax) noscale dF false shape nscales elems facs ix
+  = Ok (rev (np_shape (rev shape) (rev c)),
+        map (fun o => let slab_no := Z.to_nat (o / prod (skipn (Z.to_nat nscales) shape)) in
+                      minc_elem d dmin dmax (fst (nth slab_no facs dF)) (snd (nth slab_no facs dF))
+                                (decode (nth (Z.to_nat o) elems [])))
+            (offs (rev shape) (rev c) 1)).
+Proof. exact minc_bitexact. Qed.
+Print Assumptions C03_minc_bitexact.
 
 (* ---- per-sub-brick factors on the last axis (AFNIArrayProxy), or no scaling at all *)
 Theorem C03_getitem_eq_index_last_axis_factors :
@@ -133,13 +198,23 @@ Print Assumptions C03_getitem_eq_index_parrec.
 (* ---- MINC (C order; image-min/-max over the first nscales axes, nscales < rank), full
    statement: every valid index, integers-only ones included (fix 139e21b4) *)
 Theorem C03_getitem_eq_index_minc :
-  forall (F R : Type) (scale : F -> list Z -> R) (dF : F) (dR : R)
+  forall (F R : Type) (scale : F -> list Z -> R) (noscale : list Z -> R) (dF : F) (dR : R)
          shape nscales elems facs ix c,
   minc_hyps shape nscales elems facs ix c ->
-  minc_getitem scale dF shape nscales elems facs ix
+  minc_getitem scale noscale dF false shape nscales elems facs ix
   = Ok (np_index dR OrdC shape c (minc_full scale dF shape nscales elems facs)).
 Proof. exact @minc_getitem_spec. Qed.
 Print Assumptions C03_getitem_eq_index_minc.
+
+(* float-typed MINC image (_normalize returns the data as read): unscaled, any valid index *)
+Theorem C03_getitem_eq_index_minc_float :
+  forall (F R : Type) (scale : F -> list Z -> R) (noscale : list Z -> R) (dF : F) (dR : R)
+         shape nscales elems (facs : list F) ix c,
+  canonical_slicers true ix shape = Ok c -> ix_valid shape c -> zlen elems = prod shape ->
+  minc_getitem scale noscale dF true shape nscales elems facs ix
+  = Ok (np_index dR OrdC shape c (map noscale elems)).
+Proof. exact @minc_getitem_float_spec. Qed.
+Print Assumptions C03_getitem_eq_index_minc_float.
 
 (* ---- scaling applied exactly: np.asarray(proxy) is the pointwise scaling of the stored
    elements, in storage order, with the file's factor(s) *)
